@@ -23,6 +23,8 @@ def cases(tier, seed):
         out.append(dict(src=s, family="expressions-as-parameters"))
     for s in gen.cast_use_cases():
         out.append(dict(src=s, family="converted-values-as-indices-and-parameters"))
+    for s in gen.repo_test_programs():
+        out.append(dict(src=s, family="programs-of-the-repository-test-suite"))
     for s in gen.folded_value_cases():
         out.append(dict(src=s, family="values-through-initialisers-booleans-and-array-elements"))
     # the outputs of the other checks' enumerated families must be well-formed flat programs as well
